@@ -1864,6 +1864,9 @@ func (c *Ctx) RuleSentinelOnlyInGuards(sentinel *ssa.Global, fns []*ssa.Function
 				if !ok || u.X != ssa.Value(sentinel) {
 					continue
 				}
+				if onlyCompared(u) {
+					continue // read to be compared with (errors.Is(err, Err…), err == Err…): not produced
+				}
 				n++
 				if onEdge(fn, b, 0) {
 					c.add("discharged", "C18.L", fn, in.Pos(), sentinel.Name()+" produced only on the too-long edge of the length guard")
@@ -2066,4 +2069,29 @@ func nonNilBehindTest(v ssa.Value, b *ssa.BasicBlock) bool {
 		}
 	}
 	return false
+}
+
+// onlyCompared: the loaded sentinel is used only as the target of errors.Is or as an operand of == / !=.
+func onlyCompared(u *ssa.UnOp) bool {
+	refs := u.Referrers()
+	if refs == nil || len(*refs) == 0 {
+		return false
+	}
+	for _, r := range *refs {
+		switch x := r.(type) {
+		case *ssa.DebugRef:
+		case *ssa.BinOp:
+			if x.Op != token.EQL && x.Op != token.NEQ {
+				return false
+			}
+		case *ssa.Call:
+			f := x.Call.StaticCallee()
+			if f == nil || f.String() != "errors.Is" || len(x.Call.Args) != 2 || x.Call.Args[1] != ssa.Value(u) {
+				return false
+			}
+		default:
+			return false
+		}
+	}
+	return true
 }
